@@ -14,7 +14,7 @@ import (
 func init() {
 	register(&Prop{
 		ID: "C04", Level: "fault_enumeration",
-		Rule: "two scenario families, chosen per run. (a) enumerated endings: a generated transaction program of 1-6 operations (Handle/Update/Delete/Truncate, reads, Snapshot, Iter) is executed once for every ending in {commit, explicit abort, error returned from Updates, panic inside Updates, runtime.Goexit of the calling goroutine inside the transaction} placed after every prefix of its operations (all positions enumerated for each program); after each operation the transaction's own view is compared with the private model and a second task sweeps the router (must show the committed state only); after the ending the router must show all or none of the writes, the settled transaction must refuse every method, a read-only transaction must refuse writes without effect, and a write issued by the second task must complete (writer lock released, else the scheduler reports a deadlock). (b) concurrent readers: multi-route transactions next to readers that observe several keys from one snapshot (Iter.All, View, Allow header), history checked with porcupine; the same family also runs under the race detector (HB mode). Non-trivial: the transaction made at least 2 effective writes and was observed from outside at least once while open; distinct = hash of (program, ending, position) or (programs, schedule).",
+		Rule: "two scenario families, chosen per run. (a) enumerated endings: a generated transaction program of 1-6 operations (Handle/Update/Delete/Truncate, reads, Iter at a drawn position, a Snapshot() at a drawn position that must show the writes so far, refuse writes and is then dropped, aborted or committed while the transaction stays open) is executed once for every ending in {commit, explicit abort, error returned from Updates, panic inside Updates, runtime.Goexit of the calling goroutine inside the transaction} placed after every prefix of its operations (all positions enumerated for each program); after each operation the transaction's own view is compared with the private model and a second task sweeps the router (must show the committed state only); after the ending the router must show all or none of the writes, the settled transaction must refuse every method, a read-only transaction must refuse writes without effect, and a write issued by the second task must complete (writer lock released, else the scheduler reports a deadlock). (b) concurrent readers: multi-route transactions next to readers that observe several keys from one snapshot (Iter.All, View, Allow header), history checked with porcupine; the same family also runs under the race detector (HB mode). Non-trivial: the transaction made at least 2 effective writes and was observed from outside at least once while open; distinct = hash of (program, ending, position) or (programs, schedule).",
 		Run:  runC04, HBRun: runC04HB, Quick: 32000, Thorough: 4800000, QuickHB: 4000, ThoroughHB: 400000,
 		Real: commonReal, Stub: commonStub,
 		Domain: []string{"transaction programs of <= 6 operations; pools as in C02", "concurrent family: as C05 with 80% of writer operations being transactions"},
@@ -63,6 +63,7 @@ func runC04Enum(src sim.Source, o Opts, res *Result) {
 		return
 	}
 	prefixes := prefixesOf(src, pool)
+	probes := genProbes(src, pool, methods3, 3)
 	committed := model.NewSet()
 	nextTag := 0
 	// some initial content
@@ -93,6 +94,8 @@ func runC04Enum(src sim.Source, o Opts, res *Result) {
 	variants = append(variants, txnVariant{"commit", n})
 	stay := sim.Pick(src, "stay", [][2]int{{1, 2}, {0, 1}, {3, 4}})
 	iterAt := src.Intn("iterat", len(prog.Ops)+2) - 2 // -2: never
+	snapAt := src.Intn("snapat", len(prog.Ops)+2) - 2 // -2: never; -1: right after the transaction was opened
+	snapEnd := src.Intn("snapend", 3)                 // the snapshot is dropped / aborted / committed while the transaction stays open
 	effWrites, outside := 0, 0
 	res.Case["config"] = cfg.String()
 	res.Case["pool"] = poolStrings(pool)
@@ -162,6 +165,46 @@ func runC04Enum(src sim.Source, o Opts, res *Result) {
 				if d != "" {
 					t0fail = fmt.Sprintf("after op %d the transaction does not read its own writes: %s", i, d)
 					return
+				}
+				s.Atomic(func() { d = entryPointsAgree(txn, probes) })
+				if d != "" {
+					t0fail = fmt.Sprintf("after op %d the transaction's read entry points disagree (one of them does not read its own writes): %s", i, d)
+					return
+				}
+				if i == snapAt {
+					// a Snapshot() is a read-only transaction of its own: it shows the writes so far, refuses writes without
+					// effect, and settling it changes nothing for the transaction it was taken from
+					sn := txn.Snapshot()
+					s.Atomic(func() {
+						d = world.DiffLines(world.MapSweep(sn, methods3, pool, prefixes), world.ModelMapSweep(private, methods3, pool, prefixes))
+					})
+					if d != "" {
+						t0fail = fmt.Sprintf("after op %d a Snapshot() of the transaction does not show its writes so far: %s", i, d)
+						return
+					}
+					if _, err := sn.Handle("GET", "/zz/snapshot", world.Handler(0)); !errors.Is(err, fox.ErrReadOnlyTxn) {
+						t0fail = fmt.Sprintf("Handle through a Snapshot() returned %v", err)
+					} else if _, err := sn.Delete("GET", pool[0].Raw); !errors.Is(err, fox.ErrReadOnlyTxn) {
+						t0fail = fmt.Sprintf("Delete through a Snapshot() returned %v", err)
+					} else if err := sn.Truncate(); !errors.Is(err, fox.ErrReadOnlyTxn) {
+						t0fail = fmt.Sprintf("Truncate through a Snapshot() returned %v", err)
+					}
+					if t0fail != "" {
+						return
+					}
+					switch snapEnd {
+					case 1:
+						sn.Abort()
+					case 2:
+						sn.Commit()
+					}
+					s.Atomic(func() {
+						d = world.DiffLines(world.MapSweepOpt(txn, methods3, pool, prefixes, false), world.ModelMapSweepOpt(private, methods3, pool, prefixes, false))
+					})
+					if d != "" {
+						t0fail = fmt.Sprintf("after op %d, settling a Snapshot() changed what the transaction reads: %s", i, d)
+						return
+					}
 				}
 				if i == len(t.Ops)-1 && t.End == "commit" {
 					phase.Set(1)
